@@ -223,8 +223,8 @@ def check(tier, seed, replay=None):
             k = rnd.random()
             secs = int(rnd.choice(EDGE)) if k < 0.3 else rnd.randrange(-2**31, 2**32) if k < 0.7 else rnd.randrange(-62135596800, 253402300800)
             num = str(secs)
-            if rnd.random() < 0.15 and secs >= 0:
-                num = "%d.%s" % (secs, rnd.choice(["5", "25", "75", "125", "0", "50"]))
+            if rnd.random() < 0.2:
+                num = "%s%d.%s" % ("-" if secs < 0 else "", abs(secs), rnd.choice(["5", "25", "75", "125", "0", "50"]))
             fmt = "".join(rnd.choice(LITS) + rnd.choice(SPECS) for _ in range(rnd.choice([1, 1, 2, 3, 5]))) + rnd.choice(LITS)
             if rnd.random() < 0.05:
                 fmt += rnd.choice(["%Q", "%", "%-a", "%10d", "%E", "%:y"])          # not a format: no meaning (Unspec), must not fail
